@@ -1,4 +1,5 @@
 import QcelVerif.Model.Compare
+import QcelVerif.Model.CompareWide
 import QcelVerif.Lib.Proto
 /-! Line-protocol driver for the C19 model.
 
@@ -11,7 +12,17 @@ import QcelVerif.Lib.Proto
      N  B0 B1  I<int>  F<xr>  C<xr>;<xr>  S:<text>  f<xr>  i<int>  b0 b1  c<xr>;<xr>
      L<n> t1 … tn      D<n> K:<key> t1 … K:<key> tn      A<k><ndim> d1 … dndim s1 … s(prod d)
   <xr>      = nan | inf | -inf | p | p/q
-  answers: T | F | raise:ValueError | unmodelled | bad-op -/
+  answers: T | F | raise:ValueError | unmodelled | bad-op
+
+  extension (Model/CompareWide.lean):
+    W|atol rtol|<phase>|<forgive>|<tree>|<tree>                   compare_recursive, wide recursion
+    P|atol rtol|<phase>|<forgive>|<tree>|<tree>                   ProtoModel.compare on the two .dict() trees
+    M|atol rtol|<relgeoms>|<forgive>|<tree>|<tree>                compare_molrecs on the RAW records
+  in P and M `atol` / `rtol` may be `d` (keyword not passed: the function's default); <relgeoms> = exact | align | other
+  text outside the token alphabet: Z:<hex of the ASCII bytes> (scalar), J:<hex> (key), path lists x:<hex>,<hex>,...
+  an R line is answered by `compareRecursive`; when that is not `unmodelled` the wide model must give the same
+  answer, otherwise the driver prints `inconsistent` (run-time check of the conservative-extension theorem)
+  further answers: raise:KeyError | raise:TypeError | raise:OverflowError | inconsistent -/
 open QcelVerif QcelVerif.Compare QcelVerif.Proto
 
 def dropPrefix (s : String) (n : Nat) : String := String.ofList (s.toList.drop n)
@@ -33,8 +44,22 @@ def parseCx? (s : String) : Option Cx :=
 def parseBool? (s : String) : Option Bool :=
   if s == "1" then some true else if s == "0" then some false else none
 
+def hexVal? (c : Char) : Option Nat :=
+  if c.isDigit then some (c.toNat - 48)
+  else if 'a'.toNat ≤ c.toNat && c.toNat ≤ 'f'.toNat then some (c.toNat - 87) else none
+
+def unhex? : List Char → Option (List Char)
+  | [] => some []
+  | a :: b :: t => do
+    let x ← hexVal? a
+    let y ← hexVal? b
+    let r ← unhex? t
+    if x * 16 + y < 128 then some (Char.ofNat (x * 16 + y) :: r) else none
+  | _ => none
+
 def parseSc? (tok : String) : Option Sc :=
   match tok.toList with
+  | 'Z' :: ':' :: r => (unhex? r).map (fun l => .str (String.ofList l))
   | ['N'] => some .none
   | 'B' :: r => (parseBool? (String.ofList r)).map .bool
   | 'I' :: r => (parseInt? (String.ofList r)).map .int
@@ -100,6 +125,11 @@ partial def parseKVs (n : Nat) (ts : List String) : Option (List (String × Tree
       let (t, rest1) ← parseTree rest
       let (l, rest2) ← parseKVs n rest1
       some ((String.ofList k, t) :: l, rest2)
+    | 'J' :: ':' :: k => do
+      let k' ← unhex? k
+      let (t, rest1) ← parseTree rest
+      let (l, rest2) ← parseKVs n rest1
+      some ((String.ofList k', t) :: l, rest2)
     | _ => none
   | _, [] => none
 end
@@ -114,6 +144,9 @@ def parsePaths? (s : String) : Option (List String) :=
   | 'l' :: ':' :: r =>
     let body := String.ofList r
     if body.isEmpty then some [] else some (splitOnChar body ',')
+  | 'x' :: ':' :: r =>
+    let body := String.ofList r
+    if body.isEmpty then some [] else (splitOnChar body ',').mapM (fun h => (unhex? h.toList).map String.ofList)
   | _ => none
 
 def parsePhase? (s : String) : Option PhaseOpt :=
@@ -129,6 +162,26 @@ def showRes : Res → String
   | .verdict false => "F"
   | .raised .valueError => "raise:ValueError"
   | .unmodelled => "unmodelled"
+
+def showMRes : MRes → String
+  | .verdict true => "T"
+  | .verdict false => "F"
+  | .raised .valueError => "raise:ValueError"
+  | .raised .keyError => "raise:KeyError"
+  | .raised .typeError => "raise:TypeError"
+  | .raised .overflowError => "raise:OverflowError"
+  | .unmodelled => "unmodelled"
+
+/-- a tolerance keyword: `d` = not passed -/
+def parseTol? (s : String) : Option (Option Rat) :=
+  if trimStr s == "d" then some none else (parseRat? s).map some
+
+def parseRelGeoms? (s : String) : Option RelGeoms :=
+  let t := trimStr s
+  if t == "exact" then some .exact else if t == "align" then some .align else if t == "other" then some .other else none
+
+def tolOk (a r : Option Rat) : Bool :=
+  (match a with | some a => decide (0 < a) | none => true) && (match r with | some r => decide (0 ≤ r) | none => true)
 
 def stepC19 (line : String) : String :=
   match splitOnChar line '|' with
@@ -153,7 +206,34 @@ def stepC19 (line : String) : String :=
       | [a, r], some ph, some fg, some e, some c =>
         match parseRat? a, parseRat? r with
         | some a, some r =>
-          if a ≤ 0 || r < 0 then "bad-op" else showRes (compareRecursive a r fg ph e c)
+          if a ≤ 0 || r < 0 then "bad-op" else
+            let r0 := compareRecursive a r fg ph e c
+            if r0 ≠ .unmodelled && compareRecursiveW a r fg ph e c ≠ r0 then "inconsistent" else showRes r0
+        | _, _ => "bad-op"
+      | _, _, _, _, _ => "bad-op"
+    else if trimStr op == "W" then
+      match splitNonEmpty tol ' ', parsePhase? ph, parseForgive? fg, parseWholeTree e, parseWholeTree c with
+      | [a, r], some ph, some fg, some e, some c =>
+        match parseRat? a, parseRat? r with
+        | some a, some r =>
+          if a ≤ 0 || r < 0 then "bad-op" else showRes (compareRecursiveW a r fg ph e c)
+        | _, _ => "bad-op"
+      | _, _, _, _, _ => "bad-op"
+    else if trimStr op == "P" then
+      match splitNonEmpty tol ' ', parsePhase? ph, parseForgive? fg, parseWholeTree e, parseWholeTree c with
+      | [a, r], some ph, some fg, some e, some c =>
+        match parseTol? a, parseTol? r with
+        | some a, some r =>
+          if !tolOk a r then "bad-op" else showRes (protoCompare ⟨a, r, fg, ph⟩ e c)
+        | _, _ => "bad-op"
+      | _, _, _, _, _ => "bad-op"
+    else if trimStr op == "M" then
+      match splitNonEmpty tol ' ', parseRelGeoms? ph, parseForgive? fg, parseWholeTree e, parseWholeTree c with
+      | [a, r], some rg, some fg, some e, some c =>
+        match parseTol? a, parseTol? r with
+        | some a, some r =>
+          if !tolOk a r then "bad-op"
+          else showMRes (compareMolrecs (a.getD atolDefault) (r.getD rtolDefault) fg rg e c)
         | _, _ => "bad-op"
       | _, _, _, _, _ => "bad-op"
     else "bad-op"
